@@ -101,6 +101,30 @@ def directed(name, quick):
                         P.act('Flatten', main)
                         P.act('Flatten', main)
                         out.append(P.steps)
+    if name == 'qldir':
+        # pairs of circuits with the same sequence of operation kinds but different qubits / wait durations, exported in one
+        # process; flat and nested, repetition counts 1 and 2
+        kinds = ['Rx180', 'Ry90', 'Hadamard', 'Reset']
+        for k1 in kinds:
+            for (qa, qb) in ((0, 1), (2, 0)):
+                for wd in ((4, 8), (12, 4)):
+                    for nest in (False, True):
+                        for rep in (1, 2):
+                            P = PB.Prog()
+                            cs = []
+                            for q, d in zip((qa, qb), wd):
+                                c = P.new()
+                                P.add(c, PB.leaf(k1, [q], [[q, 'MICROWAVE' if k1 != 'Reset' else 'ALL']], ['global', 'MW' if k1 != 'Reset' else 'RST']))
+                                if nest:
+                                    s_ = P.new(rep=rep)
+                                    P.add(s_, PB.W(q, d))
+                                    P.add(s_, PB.leaf('CPhase', [q, 3], [[q, 'FLUX'], [q, 'MICROWAVE'], [3, 'FLUX'], [3, 'MICROWAVE']], ['global', 'FL']))
+                                    P.add_sub(c, s_)
+                                else:
+                                    P.add(c, PB.W(q, d))
+                                P.add(c, PB.M(q))
+                                cs.append(c)
+                            out.append(P.steps)
     if name == 'copyapplied':
         # a block of parallel operations, repeated, unrolled, THEN copied / nested; afterwards the registry duration changes
         for n in (2, 3):
@@ -137,6 +161,7 @@ SOURCES = {
     'C11': ('flatten', 'flatdir', 'sim'),
     'C03': ('hist', 'plothist', 'sim'),
     'C08': ('kinds', 'export', 'sim'),
+    'C15': ('kinds', 'export', 'qldir'),
 }
 
 
@@ -221,7 +246,7 @@ M_Init == /\\ heap = DoNewCircuit(DoAddOp(DoNewCircuit(<<>>, "n1", NoLink, <<"fi
       reps=[('fixed', 2), ('fixed', 3)], acts=('NewCircuit', 'AddOp', 'AddSub', 'Apply'), linktypes=(), max_circs=2, max_objs=8,
       max_steps=6 if quick else 7, workers=8, min_emit=6, timeout=120, cap=1500 if quick else 20000,
       keep=lambda p: p[-1]['a'] == 'Apply' and any(s['a'] == 'AddSub' for s in p))
-    for dn in ('flatdir', 'copyapplied'):
+    for dn in ('flatdir', 'copyapplied', 'qldir'):
         if dn in want:
             out.append({'name': dn, 'programs': directed(dn, quick), 'generated': 0, 'tlc_states': 0, 'tlc_generated': 0, 'mode': 'directed family (python)'})
             out[-1]['generated'] = len(out[-1]['programs'])
@@ -348,6 +373,7 @@ NONTRIVIAL.update({
     'C07': lambda p: sum(1 for s in p if s['a'] == 'AddOp' and s['m']['kind'] == 'DispersiveMeasure') >= 2,
     'C11': lambda p: any(s['a'] == 'Flatten' for s in p) and any(s['a'] == 'AddSub' for s in p),
     'C03': lambda p: any(s['a'] == 'Obs' for s in p[:-1]),
+    'C15': lambda p: sum(1 for s in p if s['a'] == 'AddOp') >= 2,
     'C08': lambda p: any(s['a'] == 'AddSub' for s in p) and sum(1 for s in p if s['a'] == 'AddOp') >= 2,
 })
 RULES = {
@@ -360,11 +386,14 @@ RULES = {
     'C11': 'a nested program is flattened',
     'C03': 'at least one observation before the end of the history',
     'C08': 'a nested block and >= 2 operations',
+    'C15': '>= 2 operations',
 }
 
 
 def run(pid, tier):
     t0 = time.time()
+    if pid == 'C15':
+        os.environ['VERIF_OPENQL'] = '1'
     v = Verdict(pid, tier, t0)
     seed = common.seed()
     mc = model_check(tier)
@@ -449,6 +478,10 @@ def signature(f, ev, trace, prog):
     cl = f['clause']
     if f.get('memo') or cl.startswith('C03.memo'):
         return 'stale-memo' if memo_trigger(trace, f['l'] - 1) else None
+    if cl == 'C15.image.subprograms_first':
+        return 'openql-subprograms-first'
+    if cl == 'C15.duplicate_kernel':
+        return 'openql-duplicate-kernel'
     if cl == 'C04.span.nested_early':
         return 'nested-block-early-start'
     if cl == 'C05.iso.link.late_member':
